@@ -77,3 +77,8 @@ def fill(claim, na):
       'Structural clauses: Solver.solve() inside a try whose finally writes the store back under --writeback-input only, no swallowing handler, nothing interactive before the protected region (K19); Ctrl-C becomes "not supplied", other interruptions propagate (K20); answers are stored immediately into the store object the CLI writes (K8, K18); refusal stops prompting (K10).',
       CORE_NOTE + 'Not decided: well-formedness of the written file for arbitrary answer text and atomicity of write() (truncate-then-write).',
       'CFG / try-finally structure rules on the CLI and the solver', 'DESIGN.md §3 C20')
+
+    c('C09',
+      'Partial evaluation of all line definitions under "this declaration is affirmative" (3-valued conditions, inter-line constant propagation): the ~78 frozen gate declarations per year must still have a reader that refuses on every path after reading them (R9.1); every other reader of a gate must refuse by itself, through the lines it must read / a required line of its form, or because every demander aborts - the contradiction rule "one reader refuses, a sibling proceeds" (R9.2); ~22 frozen limit gates per year keep a not-implemented path guarded by amount > limit (R9.3); the signal is real (K1, K2, K3).',
+      'Trusted: sa/gates.py + sa/lineabs.py; the frozen table sa/data/gates.json (inferred, then confirmed by reading; composite declarations listed under not_gates with a reason and not judged). Not decided: that a gate is reached for given data; gates on derived amounts outside the frozen limit list.',
+      'partial evaluation / abstract interpretation of line definitions under assumptions + sibling contradiction rule', 'DESIGN.md §3 C09')
